@@ -31,8 +31,8 @@ MC_Q = {"Modes": '{"server"}', "Responds": '{"sync"}', "Timeouts": "{FALSE}", "S
         "RLs": "{1}", "HOSTs": "{1}", "FRs": "{1, 2, 3, 9}", "FR2s": "{1}", "XHs": "{1}", "BODYs": "{1, 2, 3, 6}", "TAILs": "{1, 2}",
         "Dev": 0, "Sizes": "{1, 2, 5}", "MaxBodies": "{2, 1000000}", "MaxHdrs": "{27, 65536}", "Overrides": "{2000000001, 3}"}
 MC_GZ = dict(MC_Q, FRs="{1}", BODYs="{1}", TAILs="{1, 2}", Decomps="{TRUE}", MCGz="{2}", MaxBodies="{24, 39, 40, 1000000}",
-             MaxHdrs="{65536}", Overrides="{2000000001, 40}", Sizes="{1, 7}")
-GEN_Q = {"RLs": "{2}", "HOSTs": "{1}", "FRs": "{1, 2, 3}", "XHs": "{1}", "BODYs": "{1, 2, 3, 6}", "TAILs": "{2}", "GzIdx": "{3, 4}"}
+             MaxHdrs="{65536}", Overrides="{2000000001, 40}", Sizes="{2, 7}")
+GEN_Q = {"RLs": "{2}", "HOSTs": "{1}", "FRs": "{1, 2, 3}", "XHs": "{1}", "BODYs": "{1, 2, 3}", "TAILs": "{2}", "GzIdx": "{3, 4}"}
 GEN_T = {"RLs": "{1, 2, 4}", "HOSTs": "{1}", "FRs": "{1, 2, 3, 9, 10, 13, 16}", "XHs": "{1, 2, 3}", "BODYs": "{1, 2, 3, 5, 6, 7, 8, 24}",
          "TAILs": "{1, 2, 3}", "GzIdx": "{1, 2, 3, 4}"}
 
